@@ -3,12 +3,15 @@
 
    `step m s c` is the model of one API call on a PeerConnection in transport mode m
    (Model/Signaling.v, following the order of effects of src/peer_connection.rs); `run` iterates
-   it over a call list; `spec_step` is the JSEP table; `benign c` says the environment did not
-   fail the transport step of that call (no socket-bind / ICE-start error). *)
+   it over a call list; `spec_step` is the JSEP table.  A call carries the flag `envf`: the
+   environment failed the transport step reached by that call (socket bind / ICE start error);
+   the theorems hold for both values (no hypothesis about the environment). *)
 From Coq Require Import ZArith List Bool.
 From RV Require Import Gen.Signaling.
 From RV Require Import Model.Signaling.
 From RV Require Import Proofs.SignalingProofs.
+From RV Require Import Model.SignalingConc.
+From RV Require Import Proofs.SignalingConcProofs.
 Import ListNotations.
 Open Scope Z_scope.
 
@@ -17,15 +20,13 @@ Open Scope Z_scope.
    transceivers, and from any previously negotiated one), in every transport mode: after every
    call the reported signaling state is the one the JSEP machine prescribes, and every call the
    machine forbids returned an error. *)
-Theorem C09_conformance : forall m s cs,
-  Forall benign cs -> conf_trace (sig s) cs (run m s cs).
+Theorem C09_conformance : forall m s cs, conf_trace (sig s) cs (run m s cs).
 Proof. exact run_conformance_from. Qed.
 
-Theorem C09_conformance_fresh : forall m l cs,
-  Forall benign cs -> conf_trace Stable cs (run m (init l) cs).
+Theorem C09_conformance_fresh : forall m l cs, conf_trace Stable cs (run m (init l) cs).
 Proof. exact conformance_from_init. Qed.
 
-Theorem C09_step_conforms : forall m s c, benign c ->
+Theorem C09_step_conforms : forall m s c,
   sig (fst (step m s c)) = spec_after (sig s) (kind_of c) (snd (step m s c)) /\
   (spec_step (sig s) (kind_of c) = None -> is_err (snd (step m s c)) = true).
 Proof. exact step_conforms. Qed.
@@ -66,7 +67,7 @@ Theorem C09_refused_though_allowed : forall q k,
   (impl_table q k = None /\ spec_step q k <> None) <-> refused_though_allowed q k = true.
 Proof. exact impl_table_vs_spec. Qed.
 
-(* even under environment failures the state only moves along an edge of that table *)
+(* the state only moves along an edge of that table *)
 Theorem C09_moves_along_table : forall m s c,
   sig (fst (step m s c)) = sig s \/ impl_table (sig s) (kind_of c) = Some (sig (fst (step m s c))).
 Proof. exact step_moves_along_table. Qed.
@@ -74,36 +75,45 @@ Proof. exact step_moves_along_table. Qed.
 (* ------------------------------------------------------------------ atomicity *)
 (* A call that returns an error leaves the ENTIRE model state as it was -- signaling state, both
    stored descriptions, every transceiver's mid / direction / payload map / extmap, the
-   transceiver list itself, the mid counter, the cached fingerprint -- provided the
-   environment did not fail the call's transport step. *)
+   transceiver list itself, the mid counter, the cached fingerprint -- whether or not the
+   environment failed the call's transport step (restore-on-error guard, commit 26c1790). *)
 Theorem C09_atomicity : forall m s c e,
-  benign c -> snd (step m s c) = Err e -> fst (step m s c) = s.
+  snd (step m s c) = Err e -> fst (step m s c) = s.
 Proof. exact step_err_same. Qed.
 
 Theorem C09_atomicity_observable : forall m s c,
-  benign c -> is_err (snd (step m s c)) = true ->
+  is_err (snd (step m s c)) = true ->
   obs (fst (step m s c)) = obs s /\ next_mid (fst (step m s c)) = next_mid s.
 Proof. exact step_atomic. Qed.
 
-Theorem C09_atomicity_run : forall m s cs,
-  Forall benign cs -> atomic_trace s (run m s cs).
+Theorem C09_atomicity_run : forall m s cs, atomic_trace s (run m s cs).
 Proof. exact run_atomic_from. Qed.
 
-(* listed finding (known_findings.d/C09.jsonl, class transport_start_failure): the hypothesis
-   `benign` cannot be dropped.  When the socket bind / ICE start reached by the call fails,
-   set_remote_description(offer) returns Err after it has moved to HaveRemoteOffer, stored the
-   description and updated the transceivers (so conformance fails too) ... *)
-Theorem C09_atomicity_env_refuted :
-  exists m s c e, env_fail c = true /\ snd (step m s c) = Err e /\
-                  sig (fst (step m s c)) <> sig s /\ obs (fst (step m s c)) <> obs s /\
-                  sig (fst (step m s c)) <> spec_after (sig s) (kind_of c) (snd (step m s c)).
-Proof. exact env_failure_set_remote_witness. Qed.
+(* the two former witnesses of the finding transport_start_failure are now refused without change *)
+Theorem C09_env_failure_set_remote_atomic :
+  step Rtp (init [w_audio]) (SetRemote (w_desc Offer 1 1 7) true) = (init [w_audio], Err EInternal).
+Proof. exact env_failure_set_remote_now_atomic. Qed.
+
+Theorem C09_env_failure_create_offer_atomic :
+  step Rtp (init [w_audio]) (CreateOffer true) = (init [w_audio], Err EInternal).
+Proof. exact env_failure_create_offer_now_atomic. Qed.
+
+(* fixed finding transport_start_failure, kept as statements about the UNGUARDED step functions
+   (`*_gen false`; the generated booleans `*_restores_on_error` select what the source has now):
+   without the guard set_remote_description(offer) returns Err after it has moved to
+   HaveRemoteOffer, stored the description and updated the transceivers ... *)
+Theorem C09_env_unguarded_set_remote_refuted :
+  exists m s d e, snd (set_remote_gen false true true m s d true) = Err e /\
+                  sig (fst (set_remote_gen false true true m s d true)) <> sig s /\
+                  obs (fst (set_remote_gen false true true m s d true)) <> obs s.
+Proof. exact env_failure_unguarded_set_remote_witness. Qed.
 
 (* ... and create_offer returns Err after it has assigned mids and advanced the mid counter *)
-Theorem C09_atomicity_env_create_offer_refuted :
-  exists m s c e, env_fail c = true /\ snd (step m s c) = Err e /\
-                  txs (fst (step m s c)) <> txs s /\ next_mid (fst (step m s c)) <> next_mid s.
-Proof. exact env_failure_create_offer_witness. Qed.
+Theorem C09_env_unguarded_create_offer_refuted :
+  exists m s e, snd (create_offer_gen false m s true) = Err e /\
+                txs (fst (create_offer_gen false m s true)) <> txs s /\
+                next_mid (fst (create_offer_gen false m s true)) <> next_mid s.
+Proof. exact env_failure_unguarded_create_offer_witness. Qed.
 
 (* fixed findings, kept as statements about the step functions parametrised by the order of
    effects (the generated booleans select the order the source has now):
@@ -114,13 +124,65 @@ Proof. exact F13_old_order_witness. Qed.
 
 (* next_mid raised before the state check in set_remote_description *)
 Theorem C09_next_mid_old_order_refuted :
-  exists m s d e, snd (set_remote_gen true false m s d false) = Err e /\
-                  next_mid (fst (set_remote_gen true false m s d false)) <> next_mid s.
+  exists m s d e, snd (set_remote_gen false true false m s d false) = Err e /\
+                  next_mid (fst (set_remote_gen false true false m s d false)) <> next_mid s.
 Proof. exact next_mid_old_order_witness. Qed.
 
 (* fingerprint-change refusal after the re-INVITE application and the transition *)
 Theorem C09_fingerprint_old_order_refuted :
-  exists m s d e, snd (set_remote_gen false true m s d false) = Err e /\
-                  sig (fst (set_remote_gen false true m s d false)) <> sig s /\
-                  txs (fst (set_remote_gen false true m s d false)) <> txs s.
+  exists m s d e, snd (set_remote_gen false false true m s d false) = Err e /\
+                  sig (fst (set_remote_gen false false true m s d false)) <> sig s /\
+                  txs (fst (set_remote_gen false false true m s d false)) <> txs s.
 Proof. exact fingerprint_old_order_witness. Qed.
+
+(* ------------------------------------------------------------------ racing signalling calls *)
+(* Model/SignalingConc.v: threads calling the API concurrently on one connection, at the
+   granularity of the locks the code takes.  With the operation lock and the atomic transition
+   (commit da17f4e; `signalling_calls_serialised` / `transition_atomic` are regenerated from the
+   source) every interleaving -- any number of threads, any schedule, close() and the environment
+   falling anywhere, also between the two steps of a call in flight -- is linearisable: the final
+   state is that of the sequential run of the linearised calls, the results are the sequential
+   results, at most one call is in flight. *)
+Theorem C09_conc_model_applies : serialised_model_applies = true.
+Proof. exact serialised_model_applies_now. Qed.
+
+Theorem C09_conc_linearizable : forall m s0 calls sched,
+  let k := cexec m sched (cstart s0 calls) in
+  complete k = final m s0 (map fst (c_lin k)) /\
+  map snd (c_lin k) = map snd (run m s0 (map fst (c_lin k))) /\
+  mutex k.
+Proof. exact conc_linearizable. Qed.
+
+(* so conformance and atomicity hold for every interleaving *)
+Theorem C09_conc_conformance : forall m s0 calls sched,
+  let k := cexec m sched (cstart s0 calls) in
+  conf_trace (sig s0) (map fst (c_lin k)) (run m s0 (map fst (c_lin k))) /\
+  atomic_trace s0 (run m s0 (map fst (c_lin k))).
+Proof. exact conc_conformance. Qed.
+
+(* the synchronous set_local_description does not wait for a call in flight: it returns an
+   error and changes nothing (API promise: "another signalling operation is in progress") *)
+Theorem C09_conc_try_lock_busy : forall m i j k d,
+  c_lock k = Some j -> nth_error (c_thr k) i = Some (TIdle (SetLocal d)) ->
+  c_st (cstep m i k) = c_st k /\ c_lin (cstep m i k) = c_lin k /\
+  nth_error (c_thr (cstep m i k)) i = Some (TDone (Err EInvalidState)).
+Proof. exact conc_try_lock_busy. Qed.
+
+(* fixed findings (replayed on the real code with two OS threads), as statements about the racy
+   model -- separate read (`borrow`) and write (`send`) of the state cell, no operation lock:
+   glare: set_local_description(offer) || set_remote_description(offer) both succeed, which no
+   sequential order allows ... *)
+Theorem C09_race_glare_refuted :
+  let thr := [rthread_of (KSetLocal Offer); rthread_of (KSetRemote Offer)] in
+  exists sched, snd (rexec sched (Stable, thr)) = [RDone true; RDone true] /\
+    (forall order, In order [[KSetLocal Offer; KSetRemote Offer]; [KSetRemote Offer; KSetLocal Offer]] ->
+                   snd (seq_results Stable order) <> [true; true]).
+Proof. exact racy_glare. Qed.
+
+(* ... and a setter racing close() re-opens the closed connection *)
+Theorem C09_race_unclose_refuted :
+  let thr := [rthread_of (KSetLocal Offer); rthread_of KClose] in
+  exists sched, rexec sched (Stable, thr) = (HaveLocalOffer, [RDone true; RDone true]) /\
+    (forall order, In order [[KSetLocal Offer; KClose]; [KClose; KSetLocal Offer]] ->
+                   fst (seq_results Stable order) = Closed).
+Proof. exact racy_unclose. Qed.
